@@ -113,7 +113,10 @@ pub fn check(rep: &mut Report) {
         }
     };
     let pairs = defs.same_dim_pairs(true);
-    let mags: Vec<&str> = M12.to_vec();
+    let mut mags: Vec<&str> = M12.to_vec();
+    if rep.tier == Tier::Thorough {
+        mags.extend(M_EXTREME);
+    }
     // prefixed variants (thorough): units accepting metric prefixes get kilo/milli on the long name
     let mut cases: Vec<(String, String, bool)> = vec![];
     for (ua, ub) in &pairs {
@@ -220,7 +223,7 @@ pub fn check(rep: &mut Report) {
     rep.set("unit_pairs", json!(pairs.len()));
     rep.set("units", json!(defs.units.len()));
     rep.set("magnitudes", json!(mags));
-    rep.rule = "every ordered pair of same-dimension prelude units (incl. a unit with itself) x magnitude alphabet M12 x shapes {x·ub, (x·ua -> ub)} (+ cross magnitudes and prefixed operands in the thorough tier); 12 relations per case evaluated by the interpreter; states = cases, transitions = relation evaluations; non-trivial = cases whose right operand is the left one converted into the other unit".into();
+    rep.rule = "every ordered pair of same-dimension prelude units (incl. a unit with itself) x magnitude alphabet M12 (thorough: + smallest subnormal, a subnormal, the largest finite value, 2^53+1) x shapes {x·ub, (x·ua -> ub)} (+ cross magnitudes and prefixed operands in the thorough tier); 12 relations per case evaluated by the interpreter; states = cases, transitions = relation evaluations; non-trivial = cases whose right operand is the left one converted into the other unit".into();
     rep.assumptions = vec![
         "magnitudes outside the alphabet are not explored".into(),
         "laws are judged bit-exactly on the interpreter's boolean results".into(),
